@@ -1626,6 +1626,22 @@ func (s *Netceptor) dispatchReservedService(md *MessageData) (bool, error) {
 	return false, nil
 }
 
+// Answers a message addressed to a local service that nobody is listening on.
+func (s *Netceptor) serviceUnknown(md *MessageData) error {
+	if md.FromNode == s.nodeID {
+		return fmt.Errorf(ProblemServiceUnknown) //nolint:staticcheck
+	}
+	_ = s.sendUnreachable(md.FromNode, &UnreachableMessage{
+		FromNode:    md.FromNode,
+		ToNode:      md.ToNode,
+		FromService: md.FromService,
+		ToService:   md.ToService,
+		Problem:     ProblemServiceUnknown,
+	})
+
+	return nil
+}
+
 // Handles incoming data and dispatches it to a service listener.
 func (s *Netceptor) handleMessageData(md *MessageData) error {
 	// Check firewall rules for this packet
@@ -1670,25 +1686,16 @@ func (s *Netceptor) handleMessageData(md *MessageData) error {
 		pc, ok := s.listenerRegistry[md.ToService]
 		if !ok || pc.context.Err() != nil {
 			s.listenerLock.RUnlock()
-			if md.FromNode == s.nodeID {
-				return fmt.Errorf(ProblemServiceUnknown) //nolint:staticcheck
-			}
-			_ = s.sendUnreachable(md.FromNode, &UnreachableMessage{
-				FromNode:    md.FromNode,
-				ToNode:      md.ToNode,
-				FromService: md.FromService,
-				ToService:   md.ToService,
-				Problem:     ProblemServiceUnknown,
-			})
 
-			return nil
+			return s.serviceUnknown(md)
 		}
 		s.listenerLock.RUnlock()
 		select {
 		case <-pc.context.Done():
 			close(pc.recvChan)
 
-			return nil
+			// the listener was closed while the message was waiting to be read
+			return s.serviceUnknown(md)
 		case pc.recvChan <- md:
 		}
 
